@@ -179,8 +179,6 @@ impl<T: Sync + Send + 'static> Worker<T> {
         if self.pattern.is_empty() {
             self.reset_matches();
             self.process_new_items_trivial();
-            #[cfg(nucleo_verif)]
-            crate::verif::point("run.before_notify_check");
             if self.should_notify.load(atomic::Ordering::Relaxed) {
                 (self.notify)();
             }
@@ -266,8 +264,6 @@ impl<T: Sync + Send + 'static> Worker<T> {
         } else {
             self.matches
                 .truncate(self.matches.len() - take(unmatched.get_mut()) as usize);
-            #[cfg(nucleo_verif)]
-            crate::verif::point("run.before_notify_check");
             if self.should_notify.load(atomic::Ordering::Relaxed) {
                 (self.notify)();
             }
